@@ -198,9 +198,9 @@ struct Pre {
     all_version_ids: BTreeSet<Uuid>,
 }
 
-fn run_storage(case: &SCase, factory: &dyn Fn() -> anyhow::Result<Arc<dyn Storage>>, reopen: bool, labels: &mut Vec<&'static str>) -> Result<Vec<String>, Fail> {
+fn run_storage(case: &SCase, factory: &dyn Fn() -> anyhow::Result<crate::driver::Stores>, reopen: bool, labels: &mut Vec<&'static str>) -> Result<Vec<String>, Fail> {
     let sv = |e: anyhow::Error| Fail::Violation(format!("opening storage failed: {e:#}"));
-    let mut storage = factory().map_err(sv)?;
+    let mut storage: Arc<dyn Storage> = factory().map_err(sv)?.served;
     let mut pre = Pre::default();
     pre.mentioned.push(Uuid::nil());
     let mut out = vec![];
@@ -209,7 +209,7 @@ fn run_storage(case: &SCase, factory: &dyn Fn() -> anyhow::Result<Arc<dyn Storag
         let line = match op {
             SOp::Reopen => {
                 if reopen {
-                    storage = factory().map_err(sv)?;
+                    storage = factory().map_err(sv)?.served;
                     labels.push("reopen");
                 }
                 "Reopen".to_string()
